@@ -471,14 +471,25 @@ fn gen_history(rng: &mut Rng, fam: &str) -> (Schema, Vec<Stmt>) {
 fn gen_stmt(rng: &mut Rng, sch: &Schema, t: Tid) -> Stmt {
     let cols = sch.cols(t);
     let n = cols.len();
+    let pk = cols.iter().position(|c| c.key == 1);
+    // a WHERE that addresses one row through the primary key (the common application shape)
+    let point = |rng: &mut Rng| -> Option<Expr> { match pk { Some(i) if rng.chance(4, 5) => Some(Expr::cmp(CmpOp::Eq, Expr::col(i), Expr::int(*rng.pick(&DOM)))), _ => gen_where(rng, cols) } };
     match rng.below(10) {
-        0..=4 => { let k = if rng.chance(1, 6) { 2 + rng.below(2) as usize } else { 1 }; Stmt::Ins(t, (0..k).map(|_| gen_row(rng, n, 10)).collect()) }
-        5..=6 => Stmt::Del(t, gen_where(rng, cols)),
+        0..=4 => {
+            if rng.chance(1, 10) {
+                // multi-row INSERT: mostly rows that do not collide with anything (values 10..99)
+                let k = 2 + rng.below(2) as usize;
+                let wide = rng.chance(3, 4);
+                Stmt::Ins(t, (0..k).map(|_| if wide { (0..n).map(|c| if cols[c].fk.is_some() { gval(rng, 10) } else { Val::Int(rng.range(10, 99)) }).collect() } else { gen_row(rng, n, 10) }).collect())
+            } else { Stmt::Ins(t, vec![gen_row(rng, n, 10)]) }
+        }
+        5..=6 => Stmt::Del(t, if rng.chance(2, 3) { point(rng) } else { gen_where(rng, cols) }),
         _ => {
             let c = rng.below(n as u64) as usize;
             let mut sets = vec![(c, gval(rng, 10))];
             if n > 1 && rng.chance(1, 5) { let c2 = (c + 1) % n; sets.push((c2, gval(rng, 10))); }
-            Stmt::Upd(t, sets, gen_where(rng, cols))
+            let keyed = sets.iter().any(|(c, _)| cols[*c].key != 0);
+            Stmt::Upd(t, sets, if keyed && rng.chance(5, 6) || rng.chance(1, 2) { point(rng) } else { gen_where(rng, cols) })
         }
     }
 }
@@ -542,7 +553,7 @@ fn search(a: &Args) {
         let f = &fams[(tried % fams.len() as u64) as usize];
         let (sch, h) = gen_history(&mut rng, f.name);
         if let Ok(obs) = sut.run(&sch, &h) {
-            if let Some(i) = oracle(&sch, &h, &obs) { fails.push(hist_line(&sch, &h[..=i])); }
+            if let Some(i) = oracle(&sch, &h, &obs) { fails.push(format!("{} #k={}", hist_line(&sch, &h[..=i]), tag(&sch, &h[..=i]))); }
         }
         tried += 1;
     }
@@ -550,6 +561,35 @@ fn search(a: &Args) {
     let mut out = format!("tried={}\n", tried);
     for f in &fails { out.push_str("FAIL "); out.push_str(f); out.push('\n'); }
     std::fs::write(&a.out, out).expect("write search output");
+}
+/// syntactic attribution of a failing history for the search mode (the recorded classes are decided
+/// in Coq on the model state; this only names the most likely one from the shape of the history)
+fn tag(sch: &Schema, h: &[Stmt]) -> u32 {
+    fn leaves_ok(e: &Expr, ci: usize) -> bool {
+        match e { Expr::And(a, b) | Expr::Or(a, b) => leaves_ok(a, ci) && leaves_ok(b, ci), Expr::Not(a) => leaves_ok(a, ci),
+                  Expr::Cmp(op, a, b) => matches!(op, CmpOp::Lt | CmpOp::Le | CmpOp::Gt | CmpOp::Ge) && **a == Expr::Col(ci) && matches!(**b, Expr::Lit(Val::Int(_))), _ => false }
+    }
+    fn printable(e: &Expr) -> bool { let mut ok = true; e.walk(&mut |x| if matches!(x, Expr::In(..) | Expr::Between(..) | Expr::Like(..) | Expr::IsNull(..) | Expr::Lit(Val::Null)) { ok = false; }); ok }
+    fn has_not(e: &Expr) -> bool { let mut f = false; e.walk(&mut |x| if matches!(x, Expr::Not(_)) { f = true; }); f }
+    for cols in [&sch.p, &sch.c] { for (i, c) in cols.iter().enumerate() { if let Some(e) = &c.chk {
+        if !printable(e) { return 1; } if !leaves_ok(e, i) { return 2; } if has_not(e) { return 3; }
+        let mut bad = false; e.walk(&mut |x| if let Expr::And(a, b) = x { if matches!(**a, Expr::Or(..)) || matches!(**b, Expr::Or(..)) { bad = true; } }); if bad { return 4; }
+    } } }
+    let last = h.last();
+    let prior_del = h[..h.len().saturating_sub(1)].iter().any(|s| matches!(s, Stmt::Del(..)));
+    let prior_keyupd = h[..h.len().saturating_sub(1)].iter().any(|s| matches!(s, Stmt::Upd(t, sets, _) if sets.iter().any(|(c, _)| sch.cols(*t)[*c].key != 0)));
+    let casc = sch.c.iter().any(|c| matches!(&c.fk, Some(f) if f.act == 2));
+    match last {
+        Some(Stmt::Ins(_, rows)) if rows.len() > 1 => 10,
+        Some(Stmt::Upd(t, sets, _)) if sets.iter().any(|(c, _)| sch.cols(*t)[*c].fk.is_some()) => 15,
+        Some(Stmt::Upd(Tid::P, sets, _)) if sets.iter().any(|(c, _)| sch.c.iter().any(|cc| matches!(&cc.fk, Some(f) if f.col == *c))) => 15,
+        Some(Stmt::Upd(t, sets, _)) if sets.iter().any(|(c, _)| sch.cols(*t)[*c].key != 0) =>
+            if !sch.cols(*t).iter().any(|c| c.key == 1) { 13 } else if prior_keyupd { 14 } else { 12 },
+        Some(Stmt::Del(Tid::P, _)) if !sch.c.is_empty() => if prior_del { 16 } else { 17 },
+        Some(Stmt::Ins(Tid::C, _)) if prior_del && casc => 19,
+        Some(Stmt::Ins(Tid::C, _)) if prior_del => 18,
+        _ => if prior_keyupd { if sch.p.iter().any(|c| c.key == 1) { 14 } else { 13 } } else if prior_del { 11 } else { 0 },
+    }
 }
 fn sql_mode(a: &Args) {
     let file = a.rest.get(0).expect("file");
